@@ -315,9 +315,23 @@ def replay(path):
     rep = json.load(open(path))
     prop = rep["property"]
     load_contracts(prop)
-    if "point" not in rep:
-        print(f"replay {path}: no failing input stored; failed obligation {rep['obligation']}\n{rep.get('verifier_output', '')[:1000]}")
-        return 1
+    numeric = isinstance(rep.get("point"), dict) and rep["point"] and all(isinstance(v, (int, float)) for v in rep["point"].values()) and rep.get("kind") != "ground"
+    if not numeric:
+        # ground / E2 / E3 obligations, or no failing input: re-generate the obligation from the current tree
+        cname = rep.get("contract") or rep["obligation"].split("/")[1].split("[")[0]
+        c = [x for x in core.REGISTRY[prop] if x.name == cname][0]
+        idx = [i for i, cfg in enumerate(c.configs) if f"{prop}/{c.name}" + (f"[{core.cfgkey(cfg)}]" if core.cfgkey(cfg) else "") == "/".join(rep["obligation"].split("/")[:2])]
+        if not idx:
+            print(f"replay {path}: configuration of {rep['obligation']} not found")
+            return 3
+        res = core.run_task((prop, c.name, idx[0], "thorough", 0))
+        o = [x for x in res["obl"] if x["name"] == rep["obligation"]]
+        print(f"obligation {rep['obligation']}\n  stored: expected {rep.get('expected')!r} actual {rep.get('actual')!r} at {rep.get('point')}\n  stored verifier output: {str(rep.get('verifier_output'))[:500]}")
+        if not o:
+            print("  => obligation no longer generated")
+            return 3
+        print(f"  now: {o[0]['status']} ({o[0]['backend']}) {o[0]['detail'][:500]}")
+        return 1 if o[0]["status"] == "refuted" else 0
     c = [x for x in core.REGISTRY[prop] if x.name == rep["contract"]][0]
     from vk import symnp
 
